@@ -9,7 +9,7 @@ from pyvc.api import CONTRACTS
 flt = sys.argv[1] if len(sys.argv) > 1 else ""
 for m in specs.MODULES:
     importlib.import_module(m)
-for target, cls in CONTRACTS.items():
+for target, cls in __import__("pyvc.api", fromlist=["ALL"]).ALL:
     if flt not in target or not hasattr(cls, "native_cases"):
         continue
     r = native.run_cases(target, cls.__module__, cls.__name__, os.environ.get("VERIF_TIER", "quick"))
